@@ -318,7 +318,73 @@ func genC05(out *caseWriter, seed uint64, n int, args []string) error {
 // mutateInvalid breaks the journal in one of a few lifecycle ways
 func mutateInvalid(r *rng, j Journal) Journal {
 	out := append(Journal(nil), j...)
-	switch r.intn(3) {
+	switch r.intn(5) {
+	case 3, 4:
+		// use after close, with a history: an income/expense account that has bookings is closed on the day of its
+		// last booking; the next day has a booking on it AND an unrelated transaction, so that which of the two the
+		// checker sees first depends on the order of the directives in the source (seeded change
+		// C05d-checker-open-cache remembered the accounts it had looked up last and did not forget them at a close:
+		// the verdict then depended on that order)
+		last := map[string]string{}
+		var others []string
+		for _, d := range out {
+			if d.Kind == 'T' && d.Accrual == nil {
+				for _, b := range d.Bookings {
+					for _, a := range []string{b.Credit, b.Debit} {
+						if !isAL(a) && a != "Equity:Equity" && d.Date > last[a] {
+							last[a] = d.Date
+						}
+					}
+				}
+			}
+			if d.Kind == 'O' {
+				others = append(others, d.Acc)
+			}
+		}
+		var cands []string
+		for a := range last {
+			cands = append(cands, a)
+		}
+		sort.Strings(cands)
+		if len(cands) > 0 && len(others) >= 3 {
+			x := pick(r, cands)
+			t, _ := time.Parse("2006-01-02", last[x])
+			next := dateStr(t.AddDate(0, 0, 1))
+			var o []string
+			for _, a := range others {
+				if a != x {
+					o = append(o, a)
+				}
+			}
+			com := "CHF"
+			out = append(out, Dir{Kind: 'C', Date: last[x], Acc: x})
+			k := r.rangeInt(1, 2)
+			for q := 0; q < k; q++ {
+				out = append(out, Dir{Kind: 'T', Date: next, Desc: "unrelated", Bookings: []Booking{{pick(r, o), pick(r, o), "1", com}}})
+			}
+			out = append(out, Dir{Kind: 'T', Date: next, Desc: "after close", Bookings: []Booking{{pick(r, o), x, "2", com}}})
+			// no later directive on x: drop them
+			var kept Journal
+			for _, d := range out {
+				drop := false
+				if d.Date > last[x] && d.Desc != "after close" {
+					if d.Kind == 'T' {
+						for _, b := range d.Bookings {
+							if b.Credit == x || b.Debit == x {
+								drop = true
+							}
+						}
+						if d.Accrual != nil && d.Accrual.Account == x {
+							drop = true
+						}
+					}
+				}
+				if !drop {
+					kept = append(kept, d)
+				}
+			}
+			return kept
+		}
 	case 0: // drop an open
 		for k, d := range out {
 			if d.Kind == 'O' && r.chance(40) {
